@@ -121,8 +121,9 @@ def EndsNl (b : Bytes) : Prop := ∃ pre, b = pre ++ [10]
     * `info_url_trailer` (DESIGN §6.C16) appending the `INFO URL` line to a body that parses AND
       ends in a line feed keeps the table and sets the URL. (Without "ends in a line feed" this is
       false for the real parser: a body whose unterminated last line is longer than the 160 KiB
-      window parses `Ok` — over-long-line recovery discards it — and the appended note is then
-      glued to that line and discarded with it; known finding `C16-overlong-unterminated-tail`.) -/
+      window parses `Ok` — over-long-line recovery discards it — and an appended note would be
+      glued to that line and discarded with it. That was a genuine defect found by this check and
+      repaired in /repo by 4002240: such a body is no longer committed, see `updNl`.) -/
 structure ParserLaws (P : ParserModel) : Prop where
   callback_prefix : ∀ rx s cb, P.runRev rx = some (s, cb) →
     (∃ rest, cb ++ rest = bodyOf rx) ∧ (∀ fin t, P.finish s = some (fin, t) → cb ++ fin = bodyOf rx)
@@ -179,14 +180,15 @@ inductive Phase (P : ParserModel) where
   /-- `client.get(u).send().await` pending; `rest` = servers not tried yet -/
   | awaitStatus (u : Url) (rest : List Url)
   /-- inside `parse_async`: `temp` = contents of the live `NamedTempFile` (`none`: caching was given
-      up), `ps` = parser state, `rx` = chunks received (ghost) -/
-  | streaming (u : Url) (rest : List Url) (temp : Option Bytes) (ps : P.σ) (rx : List Bytes)
+      up), `nl` = `ends_with_newline` (the last byte the tee callback has seen is `\n`),
+      `ps` = parser state, `rx` = chunks received (ghost) -/
+  | streaming (u : Url) (rest : List Url) (temp : Option Bytes) (nl : Bool) (ps : P.σ) (rx : List Bytes)
   | done (r : Result)
   | dropped
 
 /-- contents of the temp file this call holds in the tmp directory -/
 def Phase.temp {P : ParserModel} : Phase P → Option Bytes
-  | .streaming _ _ t _ _ => t
+  | .streaming _ _ t _ _ _ => t
   | _ => none
 
 /-- `error_for_status`: client and server errors -/
@@ -202,6 +204,13 @@ def tee (temp : Option Bytes) (cb : Bytes) (writeOk : Bool) : Option Bytes :=
   match temp with
   | none => none
   | some t => if writeOk then some (t ++ cb) else none
+
+/-- `ends_with_newline` after the tee callback has been handed `cb` (http.rs: updated before the
+    write attempt, whether or not caching has been given up) -/
+def updNl (nl : Bool) (cb : Bytes) : Bool :=
+  match cb.getLast? with
+  | some b => b == 10
+  | none => nl
 
 /-- `commit_cache_file` (http.rs:157-178) on a temp file with contents `t`. Every failure returns
     early and drops `temp` (the file in the tmp directory disappears with it). -/
@@ -234,22 +243,26 @@ def step {P : ParserModel} (c : Cache) (req : Req) : Phase P → Ev → Cache ×
   | .start, .drop => (c, .dropped)
   | .awaitStatus u rest, .status code createOk =>
     if isErrorStatus code then (c, nextUrl rest)
-    else (c, .streaming u rest (if createOk then some [] else none) P.init [])
+    else (c, .streaming u rest (if createOk then some [] else none) false P.init [])
   | .awaitStatus _ rest, .netError => (c, nextUrl rest)
   | .awaitStatus _ _, .drop => (c, .dropped)
-  | .streaming u rest temp ps rx, .chunk b writeOk =>
+  | .streaming u rest temp nl ps rx, .chunk b writeOk =>
     match P.feed ps b with
     | none => (c, nextUrl rest)
-    | some (ps', cb) => (c, .streaming u rest (tee temp cb writeOk) ps' (b :: rx))
-  | .streaming u rest temp ps rx, .eof io =>
+    | some (ps', cb) => (c, .streaming u rest (tee temp cb writeOk) (updNl nl cb) ps' (b :: rx))
+  | .streaming u rest temp nl ps rx, .eof io =>
     match P.finish ps with
     | none => (c, nextUrl rest)
     | some (fin, _) =>
+      -- `temp.filter(|_| ends_with_newline)`: a body that does not end in `\n` is not committed
+      -- (its temp file is dropped)
       match tee temp fin io.writeOk with
       | none => (c, .done (.downloaded rx u))
-      | some t => (commit c req.path u t io, .done (.downloaded rx u))
-  | .streaming _ rest _ _ _, .netError => (c, nextUrl rest)
-  | .streaming _ _ _ _ _, .drop => (c, .dropped)
+      | some t =>
+        if updNl nl fin then (commit c req.path u t io, .done (.downloaded rx u))
+        else (c, .done (.downloaded rx u))
+  | .streaming _ rest _ _ _ _, .netError => (c, nextUrl rest)
+  | .streaming _ _ _ _ _ _, .drop => (c, .dropped)
   | ph, _ => (c, ph)
 
 /-- one call driven by an event list -/
@@ -464,7 +477,7 @@ def isDropped (ph : Phase Toy.model) : Bool :=
 def curIndex (req : Req) (ph : Phase Toy.model) : Option Nat :=
   match ph with
   | .awaitStatus _ rest => some (req.urls.length - rest.length - 1)
-  | .streaming _ rest _ _ _ => some (req.urls.length - rest.length - 1)
+  | .streaming _ rest _ _ _ _ => some (req.urls.length - rest.length - 1)
   | _ => none
 
 /-- deliver a (possibly tagged) event -/
